@@ -899,7 +899,70 @@ class Builtins(OpsMixin, LoopsMixin):
         attr = z3.simplify(args[1].t).as_string()
         yield from self.getattr(ex, p, args[0], attr, node)
 
+    def b_np_array(self, ex, p, args, kwargs, node, f):
+        v = ex.deref(p, args[0])
+        if isinstance(v, VDyn):
+            for p1, v1 in ex.narrow(p, v):
+                if isinstance(v1, VDyn):
+                    raise Unsupported("np.array of dynamic value")
+                yield from self.b_np_array(ex, p1, [v1], kwargs, node, f)
+            return
+        if isinstance(v, VTuple) and v.items and all(isinstance(ex.deref(p, x), (VInt, VReal)) for x in v.items):
+            v = tuple_to_seq(VTuple([ex.deref(p, x) for x in v.items]))
+        if isinstance(v, VSeq) and v.elem in (Int, Real):
+            yield p, VSeq(v.t, v.elem, "ndarray")
+            return
+        c = ex.reg.get("np.array")
+        if c is None:
+            raise Unsupported("np.array of %r" % (v,))
+        yield from ex.apply_contract(p, c, [v], {}, node)
+
+    def b_np_where(self, ex, p, args, kwargs, node, f):
+        m = ex.deref(p, args[0])
+        if not (isinstance(m, VSeq) and m.elem is Bool):
+            raise Unsupported("np.where on %r" % (m,))
+        n = z3.Length(m.t)
+        pw = getattr(m, "pointwise", None)
+        if pw is not None:
+            # state the facts on the defining expression of the mask (usable triggers), not on the mask cells
+            class _M:
+                def __getitem__(self, k):
+                    return pw(k)
+            m = VSeq(m.t, m.elem, m.kind)
+            m.t = _M()
+        w = V.fresh("where", z3.SeqSort(IntS))
+        i = V.fresh("wi", IntS)
+        ln = z3.Length(w)
+        rng = z3.And(i >= 0, i < n)
+        # assumed numpy semantics: ascending indices of the true entries (first / last / emptiness facts)
+        p.assume((ln == 0) == z3.ForAll([i], z3.Implies(rng, z3.Not(m.t[i]))))
+        p.assume(ln <= n)
+        p.assume(z3.Implies(ln > 0, z3.And(w[0] >= 0, w[0] < n, m.t[w[0]],
+                                           z3.ForAll([i], z3.Implies(z3.And(i >= 0, i < w[0]), z3.Not(m.t[i]))))))
+        last = w[ln - 1]
+        p.assume(z3.Implies(ln > 0, z3.And(last >= 0, last < n, m.t[last],
+                                           z3.ForAll([i], z3.Implies(z3.And(i > last, i < n), z3.Not(m.t[i]))))))
+        yield p, VTuple([VSeq(w, Int, "ndarray")])
+
+    def b_np_searchsorted(self, ex, p, args, kwargs, node, f):
+        """assumed numpy semantics for an ascending array: insertion point (left: a[i-1] < v <= a[i])"""
+        a = ex.deref(p, args[0])
+        v = ex.deref(p, args[1])
+        side = kwargs.get("side", args[2] if len(args) > 2 else VStr("left"))
+        right = z3.simplify(side.t).as_string() == "right"
+        if not (isinstance(a, VSeq) and a.elem in (Int, Real)) or not self.is_num(v):
+            raise Unsupported("np.searchsorted on %r" % (a,))
+        n = z3.Length(a.t)
+        r = V.fresh("ss", IntS)
+        i = V.fresh("si", IntS)
+        vt = to_real(v) if a.elem is Real else v.t
+        p.assume(z3.And(r >= 0, r <= n))
+        p.assume(z3.ForAll([i], z3.Implies(z3.And(i >= 0, i < r), (a.t[i] <= vt) if right else (a.t[i] < vt))))
+        p.assume(z3.ForAll([i], z3.Implies(z3.And(i >= r, i < n), (a.t[i] > vt) if right else (a.t[i] >= vt))))
+        yield p, VInt(r)
+
     table = {
+        "np.array": b_np_array, "np.where": b_np_where, "np.asarray": b_np_array, "np.searchsorted": b_np_searchsorted,
         "len": b_len, "abs": b_abs, "min": b_minmax, "max": b_minmax, "isinstance": b_isinstance,
         "hasattr": b_hasattr, "range": b_range, "enumerate": b_enumerate, "zip": b_zip,
         "any": b_anyall, "all": b_anyall, "sum": b_sum, "super": b_super, "print": b_noop,
